@@ -377,7 +377,13 @@ func visitInstr(fr *frame, instr ssa.Instruction) continuation {
 				raise("invalid memory address or nil pointer dereference")
 			}
 			a := (*x).(array)
-			fr.env[instr] = &a[indexIn(idx, len(a))]
+			if si, ok := idx.(sym); ok && isStdTable(instr.X) {
+				// constant lookup table of the standard library: fork per
+				// distinct element value, not per index
+				fr.env[instr] = &a[tableIndex(si, a)]
+			} else {
+				fr.env[instr] = &a[indexIn(idx, len(a))]
+			}
 		default:
 			panic(fmt.Sprintf("unexpected x type in IndexAddr: %T", x))
 		}
@@ -388,7 +394,11 @@ func visitInstr(fr *frame, instr ssa.Instruction) continuation {
 
 		switch x := x.(type) {
 		case array:
-			fr.env[instr] = x[indexIn(idx, len(x))]
+			if si, ok := idx.(sym); ok {
+				fr.env[instr] = x[tableIndex(si, x)]
+			} else {
+				fr.env[instr] = x[indexIn(idx, len(x))]
+			}
 		case string:
 			fr.env[instr] = x[indexIn(idx, len(x))]
 		case symstr:
